@@ -60,13 +60,13 @@ func init() {
 		"CLI cases: index files are written with desync's Index.WriteTo from IDs computed here; a child that cannot be started or does not end within 120 s makes the run inconclusive, never a verdict")
 }
 
-// drawCLI: 1 in 32 cases in the quick tier, 1 in 16 in thorough (fair single-bit draws).
+// drawCLI: 1 in 64 cases in the quick tier, 1 in 16 in thorough (fair single-bit draws).
 func drawCLI(t *rapid.T) bool {
 	if cliBin() == "" {
 		return false
 	}
 	all := true
-	for i := 0; i < hx.Pick(5, 4); i++ {
+	for i := 0; i < hx.Pick(6, 4); i++ {
 		if !rapid.Bool().Draw(t, "cli") {
 			all = false
 		}
